@@ -2,6 +2,7 @@
    by page from offset 0, SelectTransactionHistoryStatus) compared with Model/Api.v evaluated on the MODEL's state after
    the same chain.  A case is (query, count the node reported, the actions of all pages in the order returned). *)
 From Model Require Import Api Obs.
+From Lemmas Require Import ApiReflect.
 Open Scope Z_scope.
 
 Definition api_case := (hq * Z * list (hash * Z))%type.
@@ -34,15 +35,7 @@ Fixpoint final_state (c : cfg) (cm : db) (mem : avgcache) (bs : list block) : op
 Fixpoint bad_indices {A} (ok : A -> bool) (i : Z) (l : list A) : list Z :=
   match l with [] => [] | x :: l' => if ok x then bad_indices ok (i + 1) l' else i :: bad_indices ok (i + 1) l' end.
 
-Definition nodup_rows (l : list row) : bool :=
-  (fix go (l : list row) := match l with a :: ((b :: _) as l') => negb (list_Z_eqb a b) && go l' | _ => true end) (sort_rows l).
-Definition hist_wfb (s : db) : bool :=
-  nodup_rows (map (fun b => [hb_hash b]) (hist s))
-  && nodup_rows (map (fun t => [ht_hash t; ht_index t]) (htxs s))
-  && nodup_rows (map (fun l => [fst (fst l); snd (fst l); snd l]) (lookups s))
-  && forallb (fun l => existsb (fun t => (ht_hash t =? fst (fst l)) && (ht_index t =? snd (fst l))) (htxs s)) (lookups s)
-  && forallb (fun t => existsb (fun b => hb_hash b =? ht_hash t) (hist s)) (htxs s).
-
+(* [hist_wfb]: Lemmas/ApiReflect.v, with [hist_wfb_spec : hist_wfb s = true -> hist_wf s] *)
 Record api_report := { ar_ran : bool; ar_cases : Z; ar_bad : list Z; ar_bad_status : list Z; ar_wf : bool }.
 Definition api_check (c : cfg) (bs : list block) (cases : list api_case) (st : list (hash * Z * Z)) : api_report :=
   match final_state c genesis empty_cache bs with
